@@ -61,6 +61,22 @@ def _field_of(place, adt, field):
     return any(isinstance(e, dict) and e.get("of") == adt and e.get("n") == field for e in pr)
 
 
+def _bs_fields(prog):
+    """(name of the layer vector, name of the cursor) of BlockStack, found by type: the one Vec field and the one usize
+    field (`instructions` / `depth` on the pinned tree; a rename keeps the roles)"""
+    a = prog.adts.get(BS)
+    vec, cur = "instructions", "depth"
+    if a:
+        fl = a["variants"][0]["fields"]
+        vs = [f_["name"] for f_ in fl if f_["ty"].get("s", "").startswith("alloc::vec::Vec<")]
+        us = [f_["name"] for f_ in fl if f_["ty"].get("prim") == "usize"]
+        if len(vs) == 1:
+            vec = vs[0]
+        if len(us) == 1:
+            cur = us[0]
+    return vec, cur
+
+
 def check_block_layers(ctx, prog, tag):
     """I5: the layer discipline block resolution rests on.  A block's definitions form a vector ordered from the most
     derived template to the root; `depth` selects the layer being rendered.  Decided structurally:
@@ -71,6 +87,7 @@ def check_block_layers(ctx, prog, tag):
       - the layer rendered is `instructions[depth]`, by super() after a successful push and by a block call;
       - super() with no further layer is an error."""
     n = 0
+    VEC, CUR = _bs_fields(prog)
     # -- mutable uses of the layer vector
     for f in prog.fns.values():
         if f.crate != "minijinja":
@@ -82,7 +99,7 @@ def check_block_layers(ctx, prog, tag):
             if a0 is None or "p" in a0:
                 continue
             for d in flow.whole_defs(f, a0["l"]):
-                if d.kind == "stmt" and d.rv["k"] == "ref" and d.rv.get("mut") and _field_of(d.rv["place"], BS, "instructions"):
+                if d.kind == "stmt" and d.rv["k"] == "ref" and d.rv.get("mut") and _field_of(d.rv["place"], BS, VEC):
                     n += 1
                     last = c.name.split("::")[-1]
                     ok = last == "push"
@@ -98,18 +115,18 @@ def check_block_layers(ctx, prog, tag):
     ctx.floor("C06.I5 mutable uses of BlockStack.instructions" + tag, n, 2)
     # -- writers of depth
     nd = 0
-    for f, bb, w, p in query.field_accessors(prog, BS, "depth"):
+    for f, bb, w, p in query.field_accessors(prog, BS, CUR):
         if not w:
             continue
         for st in f.stmts(bb):
-            if st["k"] != "assign" or not _field_of(st["place"], BS, "depth") or st["rv"]["k"] != "use":
+            if st["k"] != "assign" or not _field_of(st["place"], BS, CUR) or st["rv"]["k"] != "use":
                 continue
             nd += 1
             src = flow.origins(f, st["rv"]["op"])
             kinds = set()
             for o in src:
                 if o.kind == "bin" and o.rv["op"] in ("Add", "AddWithOverflow") and const_int(o.rv["b"]) == 1 and \
-                        _field_of(op_place(o.rv["a"]) or {}, BS, "depth"):
+                        (_field_of(op_place(o.rv["a"]) or {}, BS, CUR) or any(CUR in q.proj for q in flow.origins(f, o.rv["a"]))):
                     kinds.add("+1")
                 elif o.kind == "call" and o.call.name.endswith("::checked_sub") and const_int(o.call.args[1]) == 1:
                     kinds.add("-1")
@@ -119,7 +136,7 @@ def check_block_layers(ctx, prog, tag):
                         kinds.add("-1")
                     else:
                         kinds.add("?")
-                elif "depth" in o.proj:
+                elif "depth" in o.proj or CUR in o.proj:
                     kinds.add("restore")
                 else:
                     kinds.add("?")
@@ -129,7 +146,12 @@ def check_block_layers(ctx, prog, tag):
                 g_ok = False
                 for (sb, taken) in flow.guards(f, bb):
                     cd = flow.cond_of(f, sb)
-                    if cd.kind == "bin" and cd.rv["op"] == "Lt" and not cd.neg:
+                    side = flow.bool_true_labels(taken)
+                    if cd.kind == "bin" and cd.rv["op"] in ("Lt", "Ge") and side is not None:
+                        # `depth + 1 < len` on its true side, or `depth + 1 >= len` (an early return) on its false side
+                        truth = (side != cd.neg)
+                        if truth != (cd.rv["op"] == "Lt"):
+                            continue
                         la = flow.origins(f, cd.rv["a"])
                         lb_ = flow.origins(f, cd.rv["b"])
                         if any(o.kind == "bin" and const_int(o.rv["b"]) == 1 for o in la) and any(
@@ -144,8 +166,8 @@ def check_block_layers(ctx, prog, tag):
         if (f.trait or "").endswith("Default"):
             continue
         names = rv.get("fields", [])
-        if "depth" in names:
-            v = const_int(rv["ops"][names.index("depth")])
+        if CUR in names:
+            v = const_int(rv["ops"][names.index(CUR)])
             ctx.ob("C06.I5.new-stack-starts-at-most-derived", tag + f.path, v == 0,
                    "a new BlockStack starts at depth %r, not 0 (the most derived definition)" % v, f.where(bb))
     # -- the layer rendered is instructions[depth]
@@ -153,14 +175,17 @@ def check_block_layers(ctx, prog, tag):
     idx_ok = False
     for c in gi.calls():
         if c.name.split("::")[-1] in ("get", "index", "get_unchecked") and len(c.args) > 1:
-            if any("depth" in o.proj for o in flow.origins(gi, c.args[1])):
+            if any(CUR in o.proj for o in flow.origins(gi, c.args[1])):
                 idx_ok = True
     ctx.ob("C06.I5.rendered-layer-is-indexed-by-depth", tag + BS_INSTR, idx_ok,
            "BlockStack::instructions() does not index the layer vector with `depth`", gi.loc)
     # -- layers are registered only while loading a parent, onto the existing entry, one per block
     lb = prog.fn(LB)
     for c in prog.calls_of(APPEND):
-        ctx.ob("C06.I5.layers-appended-only-by-load_blocks", tag + c.fn.path, c.fn.path == LB,
+        # (the constructor may build its one-element stack with the same helper, on a stack it has just created)
+        fresh = c.fn.path == BS + "::new" and all(o.kind == "call" and o.call.name.split("::")[-1] in ("default", "new")
+                                                   for o in flow.origins(c.fn, c.args[0]))
+        ctx.ob("C06.I5.layers-appended-only-by-load_blocks", tag + c.fn.path, c.fn.path == LB or fresh,
                "append_instructions outside load_blocks", c.fn.where(c.bb))
     apps = lb.calls_to(APPEND)
     ctx.ob("C06.I5.parent-layers-are-appended", tag + "load_blocks", bool(apps),
@@ -205,7 +230,10 @@ def check_block_layers(ctx, prog, tag):
             if "BTreeMap" not in c.name:
                 continue
             if any("blocks" in o.proj and o.kind == "arg" and f.locals[o.arg].get("adt") == STATE for o in flow.origins(f, c.args[0])):
-                ok = f.path == WES and c.name.endswith("::retain")
+                # (the checkpoint restore may sit in a private helper of with_execution_state)
+                host_ok = f.path == WES or (not f.is_pub and prog.callers().get(f.path) and all(
+                    k.fn.path == WES for k in prog.callers().get(f.path, [])))
+                ok = host_ok and c.name.endswith("::retain")
                 ctx.ob("C06.I5.block-table-entries-are-stable", tag + "%s|%s" % (f.path, c.name.split("::")[-1]), ok,
                        "State.blocks is mutated by %s outside the checkpoint restore" % c.name, f.where(c.bb))
     # -- super(): no further layer is an error; otherwise the current layer is rendered
@@ -282,6 +310,8 @@ def check_block_layers(ctx, prog, tag):
     # layout its includer extends ("cycle in template inheritance" for a chain that has none)
     wf = prog.fns.get(WES)
     if wf is not None:
+        from .. import inline as _inl6
+        wf = _inl6.view(prog, wf, keep=lambda t: not t.startswith("minijinja::vm::state::State::"), max_blocks=80)
         sw_ = arms.enum_switches(prog, wf, BSTATE)
         regs_ = arms.arm_regions(prog, wf, sw_[0][0], BSTATE) if sw_ else {}
         if "Replace" in regs_:
